@@ -688,24 +688,17 @@ Proof.
     split; [reflexivity|]. rewrite clean_abs_join in H. exact H.
 Qed.
 
-(* a symbolic-link entry is not named like the unpack directory itself *)
-Definition entry_not_self (dp : list name) (dirName : str) (e : entry) : Prop :=
-  match e with
-  | ESym nm _ => entry_rel dp dirName nm <> Some []
-  | _ => True
-  end.
-
 Lemma RealD_kept f f' dp (ex : path -> Prop) :
   RealD f [] dp -> dirs_kept f f' ex ->
   (forall q r, dp = q ++ r -> ~ ex q) -> RealD f' [] dp.
 Proof. intros H D N q r E Hq. simpl. apply D; [apply (H q r E Hq) | apply (N q r E)]. Qed.
 
 Lemma extract_entry_keeps wd cwd dp dirName f e f' :
-  Inv wd f -> inside wd dp = true -> RealD f [] dp -> entry_not_self dp dirName e ->
+  Inv wd f -> inside wd dp = true -> RealD f [] dp ->
   extract_entry cfg_fixed cwd dp dirName f e = Some f' ->
   Keeps wd f f' /\ RealD f' [] dp.
 Proof.
-  intros I Hd HR Hns H. unfold extract_entry, resolve_rel in H.
+  intros I Hd HR H. unfold extract_entry, resolve_rel in H. cbn [fixR cfg_fixed] in H.
   destruct (entry_rel dp dirName (entry_name e)) as [rel|] eqn:ER; [|discriminate].
   destruct (parents_ok f dp rel) eqn:PO; [|discriminate].
   assert (Hfp : inside wd (dp ++ rel) = true) by now apply inside_app.
@@ -716,46 +709,38 @@ Proof.
   destruct e as [nm c|nm|nm tgt|nm tgt|nm]; cbn [entry_name] in *.
   - apply Hnob. apply (write_at_keeps wd (dp ++ rel) c f f' I (inside_compat _ _ Hfp) H).
   - apply Hnob. apply (mkdir_all_keeps wd (dp ++ rel) f f' I (inside_compat _ _ Hfp) H).
-  - destruct (ensure_link f dp (dp ++ rel) tgt) as [pn|] eqn:EL; [|discriminate].
+  - destruct rel as [|r0 rel']; [discriminate|]. set (rel := r0 :: rel') in *.
+    destruct (ensure_link f dp (dp ++ rel) tgt) as [pn|] eqn:EL; [|discriminate].
     destruct (ensure_link_inside _ _ _ _ _ _ Hd EL) as [_ Hpn].
     apply Hnob. apply (do_link_keeps wd cwd (dp ++ rel) pn tgt f f' I (inside_compat _ _ Hfp) Hpn H).
-  - destruct (ensure_link f dp (dp ++ rel) tgt) as [pn|] eqn:EL; [|discriminate].
+  - destruct rel as [|r0 rel']; [discriminate|]. set (rel := r0 :: rel') in *.
+    destruct (ensure_link f dp (dp ++ rel) tgt) as [pn|] eqn:EL; [|discriminate].
     destruct (ensure_link_inside _ _ _ _ _ _ Hd EL) as [-> Hpn].
     destruct tgt as [|t0 tgt']; [discriminate|].
-    assert (Hrel : rel <> []) by (intros ->; apply Hns; exact ER).
+    assert (Hrel : rel <> []) by discriminate.
     assert (Hs : sinside wd (dp ++ rel)) by (apply inside_sinside_app; assumption).
     destruct (do_symlink_keeps wd (dp ++ rel) _ f f' I Hs HL (sym_node_ok wd _ _ Hpn) H) as [K D].
     split; [exact K|]. eapply RealD_kept; eauto.
     intros q r E <-. apply (f_equal (@length _)) in E. rewrite !app_length in E.
-    destruct rel; [contradiction | simpl in E; lia].
+    subst rel. simpl in E. lia.
   - injection H as <-. split; [now apply Keeps_refl | exact HR].
 Qed.
 
 Lemma extract_keeps wd cwd dp dirName : forall es f f' ok,
-  Inv wd f -> inside wd dp = true -> RealD f [] dp -> Forall (entry_not_self dp dirName) es ->
+  Inv wd f -> inside wd dp = true -> RealD f [] dp ->
   extract cfg_fixed cwd dp dirName f es = (f', ok) ->
   Keeps wd f f'.
 Proof.
-  induction es as [|e es IH]; intros f f' ok I Hd HR Hall H.
+  induction es as [|e es IH]; intros f f' ok I Hd HR H.
   - injection H as <- _. now apply Keeps_refl.
-  - cbn [extract] in H. inversion Hall as [|? ? He Hes]; subst.
+  - cbn [extract] in H.
     destruct (extract_entry cfg_fixed cwd dp dirName f e) as [f1|] eqn:E.
-    + destruct (extract_entry_keeps _ _ _ _ _ _ _ I Hd HR He E) as [K1 HR1].
+    + destruct (extract_entry_keeps _ _ _ _ _ _ _ I Hd HR E) as [K1 HR1].
       eapply Keeps_trans; [exact K1|]. eapply IH; eauto. exact (proj1 K1).
     + injection H as <- _. now apply Keeps_refl.
 Qed.
 
 (* ---------- push ---------- *)
-
-Definition push_ok (wd : path) (o : pushop) : Prop :=
-  match o with
-  | PBlob _ _ => True
-  | PDir t es =>
-    match write_path cfg_fixed wd t with
-    | Some raw => Forall (entry_not_self (clean_abs raw) t) es
-    | None => True
-    end
-  end.
 
 Lemma removelast_map {A B} (g : A -> B) (l : list A) : removelast (map g l) = map g (removelast l).
 Proof. induction l as [|a [|a' l'] IH]; try reflexivity. cbn [map removelast] in *. now rewrite IH. Qed.
@@ -771,11 +756,11 @@ Proof.
 Qed.
 
 Lemma push_keeps wd cwd s o s' ok :
-  Inv wd (st_fs s) -> push_ok wd o ->
+  Inv wd (st_fs s) ->
   push cfg_fixed wd cwd s o = (s', ok) ->
   Keeps wd (st_fs s) (st_fs s').
 Proof.
-  intros I Hok H. unfold push in H.
+  intros I H. unfold push in H.
   destruct (push_title o) as [|t0 tt] eqn:ET.
   { injection H as <- _. now apply Keeps_refl. }
   rewrite <- ET in H.
@@ -798,7 +783,6 @@ Proof.
       eapply write_at_keeps; eauto using inside_compat. exact (proj1 K1).
     + injection H as <- _. exact K1.
   - rewrite clean_abs_names in H. cbn [fixD cfg_fixed] in H.
-    unfold push_ok in Hok. rewrite EW, clean_abs_names in Hok.
     destruct (mkdir_all (st_fs s) (Nms cl)) as [f1|] eqn:M.
     2:{ injection H as <- _. now apply Keeps_refl. }
     destruct (mkdir_all_keeps wd _ _ _ I (inside_compat _ _ Hcl) M) as [K1 _].
@@ -816,17 +800,17 @@ Proof.
 Qed.
 
 Lemma pushes_keeps wd cwd : forall os s s' oks,
-  Inv wd (st_fs s) -> Forall (push_ok wd) os ->
+  Inv wd (st_fs s) ->
   pushes cfg_fixed wd cwd s os = (s', oks) ->
   Keeps wd (st_fs s) (st_fs s').
 Proof.
-  induction os as [|o os IH]; intros s s' oks I Hall H.
+  induction os as [|o os IH]; intros s s' oks I H.
   - injection H as <- _. now apply Keeps_refl.
-  - cbn [pushes] in H. inversion Hall as [|? ? Ho Hos]; subst.
+  - cbn [pushes] in H.
     destruct (push cfg_fixed wd cwd s o) as [s1 ok] eqn:P.
     destruct (pushes cfg_fixed wd cwd s1 os) as [s2 oks2] eqn:Ps.
     injection H as <- _.
-    pose proof (push_keeps _ _ _ _ _ _ I Ho P) as K1.
+    pose proof (push_keeps _ _ _ _ _ _ I P) as K1.
     eapply Keeps_trans; [exact K1|]. eapply IH; eauto. exact (proj1 K1).
 Qed.
 
@@ -934,46 +918,43 @@ Definition run0 (g : cfg) (os : list pushop) : fsys * list bool :=
   let '(s, oks) := pushes g wd0 cwd0 (mkStore fs0 []) os in (st_fs s, oks).
 
 Definition escapes (g : cfg) : Prop :=
-  exists os p, Forall (push_ok wd0) os /\ inside wd0 p = false /\
-               view_at (fst (run0 g os)) p <> view_at fs0 p.
+  exists os p, inside wd0 p = false /\ view_at (fst (run0 g os)) p <> view_at fs0 p.
 
 Ltac escape_with os p :=
-  exists os, p; split;
-  [ repeat (constructor; try (vm_compute; repeat constructor; try discriminate))
-  | split; [vm_compute; reflexivity | vm_compute; discriminate] ].
+  exists os, p; split; [vm_compute; reflexivity | vm_compute; discriminate].
 
 (* F10: hard link whose relative target is taken from the process's current directory *)
 Definition os_hardlink_cwd : list pushop :=
   [PDir (b "t") [EHard (b "t/h") (b "secret"); EReg (b "t/h") 7%N]].
-Lemma refuted_hardlink_cwd : escapes (mkCfg false true true true true).
+Lemma refuted_hardlink_cwd : escapes (mkCfg false true true true true true).
 Proof. escape_with os_hardlink_cwd [b "c"; b "secret"]. Qed.
 
 (* F11: link created with the raw target *)
 Definition os_raw_target : list pushop :=
   [PDir (b "t") [EDir (b "t/a/b"); ESym (b "t/a/b/s") (b "../..");
                  ESym (b "t/l") (b "a/b/s/../../../victim"); EReg (b "t/l") 7%N]].
-Lemma refuted_raw_target : escapes (mkCfg true false true true true).
+Lemma refuted_raw_target : escapes (mkCfg true false true true true true).
 Proof. escape_with os_raw_target [b "victim"]. Qed.
 
 (* unpack directory reached through a link created by the store *)
 Definition os_title_through_link : list pushop :=
   [PDir (b ".") [ESym (b "./x") (b ".")];
    PDir (b "x") [ESym (b "x/l") (b "../x/victim"); EReg (b "x/l") 7%N]].
-Lemma refuted_title_through_link : escapes (mkCfg true true false true true).
+Lemma refuted_title_through_link : escapes (mkCfg true true false true true true).
 Proof. escape_with os_title_through_link [b "r"; b "x"; b "victim"]. Qed.
 
 (* absolute title used raw: ".." after a store link *)
 Definition os_abs_title : list pushop :=
   [PDir (b "t") [EDir (b "t/b"); ESym (b "t/b/s") (b "..")];
    PBlob (b "/r/w/t/b/s/../../../victim") 7%N].
-Lemma refuted_abs_title : escapes (mkCfg true true true false true).
+Lemma refuted_abs_title : escapes (mkCfg true true true false true true).
 Proof. escape_with os_abs_title [b "victim"]. Qed.
 
 (* hard link to a symbolic link *)
 Definition os_hardlink_symlink : list pushop :=
   [PDir (b "t") [EDir (b "t/b/c"); ESym (b "t/b/c/s") (b "../.."); EHard (b "t/h") (b "b/c/s")];
    PBlob (b "t/h/victim") 7%N].
-Lemma refuted_hardlink_symlink : escapes (mkCfg true true true true false).
+Lemma refuted_hardlink_symlink : escapes (mkCfg true true true true false true).
 Proof. escape_with os_hardlink_symlink [b "r"; b "victim"]. Qed.
 
 Lemma prefix_escapes : escapes cfg_prefix.
@@ -987,12 +968,10 @@ Definition os_ordinary : list pushop :=
    PBlob (b "t/a/new") 10%N; PBlob (b "old") 11%N].
 
 Lemma ordinary_ok :
-  Forall (push_ok wd0) os_ordinary /\
   snd (run0 cfg_fixed os_ordinary) = [true; true; true] /\
   view_at (fst (run0 cfg_fixed os_ordinary)) [b "r"; b "w"; b "t"; b "a"; b "b"; b "f"] = VFile 9%N /\
   view_at (fst (run0 cfg_fixed os_ordinary)) [b "r"; b "w"; b "old"] = VFile 11%N.
 Proof.
-  split; [repeat (constructor; try (vm_compute; repeat constructor; try discriminate))|].
   vm_compute. repeat split.
 Qed.
 
@@ -1003,10 +982,7 @@ Lemma attacks_confined_fixed :
 Proof.
   intros os Hin p Hp. unfold run0.
   destruct (pushes cfg_fixed wd0 cwd0 (mkStore fs0 []) os) as [s oks] eqn:E. simpl.
-  assert (Hok : Forall (push_ok wd0) os).
-  { simpl in Hin. repeat (destruct Hin as [<-|Hin];
-      [repeat (constructor; try (vm_compute; repeat constructor; try discriminate))|]). contradiction. }
-  apply (proj2 (pushes_keeps wd0 cwd0 os (mkStore fs0 []) s oks inv_fs0 Hok E) p Hp).
+  apply (proj2 (pushes_keeps wd0 cwd0 os (mkStore fs0 []) s oks inv_fs0 E) p Hp).
 Qed.
 
 Lemma push_outside_entry g wd cwd s title es1 e es2 :
@@ -1026,13 +1002,57 @@ Proof.
   destruct (extract g cwd (lex_loc wd title) title f1 (es1 ++ e :: es2)) as [f2 ok]. simpl in *. exact Hs.
 Qed.
 
-Definition is_blob (o : pushop) : Prop := match o with PBlob _ _ => True | PDir _ _ => False end.
-
-Lemma pushes_blobs_keeps wd cwd os s s' oks :
-  Inv wd (st_fs s) -> Forall is_blob os ->
+(* the working directory itself stays a real directory *)
+Lemma pushes_wd_kept wd cwd os s s' oks :
+  wd <> [] -> Inv wd (st_fs s) ->
   pushes cfg_fixed wd cwd s os = (s', oks) ->
-  Keeps wd (st_fs s) (st_fs s').
+  lookup (st_fs s') wd = Some NDir.
 Proof.
-  intros I Hb. apply pushes_keeps; [exact I|].
-  eapply Forall_impl; [|exact Hb]. intros [t c|t es]; simpl; tauto.
+  intros Hwd I H. destruct (pushes_keeps wd cwd os s s' oks I H) as [I' _].
+  apply (inv_wd _ _ I' wd []); [now rewrite app_nil_r | exact Hwd].
 Qed.
+
+(* without the last repair an archive can replace the (empty) working directory itself by a link *)
+Definition fs1 : fsys :=
+  mkFS [ ([b "r"], NDir); ([b "r"; b "w"], NDir); ([b "r"; b "victim"], NFile 0) ] [ (0, 100%N) ] 1.
+
+Lemma inv_fs1 : Inv wd0 fs1.
+Proof.
+  constructor.
+  - intros q r E Hq. destruct q as [|q1 [|q2 [|q3 q']]]; [contradiction| | |].
+    + injection E as <- _. reflexivity.
+    + injection E as <- <- _. reflexivity.
+    + apply (f_equal (@length _)) in E. simpl in E. rewrite app_length in E. lia.
+  - intros p d a cs H. unfold lookup, fs1 in H. cbn [ents lookup_ents] in H.
+    repeat match type of H with
+           | (if ?c then _ else _) = _ => destruct c; [discriminate|]
+           end. discriminate.
+  - intros p q i Hp Hq. unfold lookup, fs1 in Hp, Hq. cbn [ents lookup_ents] in Hp, Hq.
+    repeat match type of Hp with
+           | (if path_eqb ?k p then _ else _) = _ =>
+             let E := fresh "E" in destruct (path_eqb k p) eqn:E;
+             [apply path_eqb_spec in E; subst p; try discriminate Hp | ]
+           end; try discriminate Hp;
+    injection Hp as <-;
+    repeat match type of Hq with
+           | (if path_eqb ?k q then _ else _) = _ =>
+             let E := fresh "E" in destruct (path_eqb k q) eqn:E;
+             [apply path_eqb_spec in E; subst q; try discriminate Hq | ]
+           end; try discriminate Hq; intros; try assumption; try reflexivity.
+  - intros p i H. change (nexti fs1) with 1. unfold lookup, fs1 in H. cbn [ents lookup_ents] in H.
+    repeat match type of H with
+           | (if ?c then _ else _) = _ =>
+             destruct c; [first [discriminate H | (injection H as H; subst i; lia)] |]
+           end. discriminate.
+Qed.
+
+Definition os_replace_wd : list pushop := [PDir (b ".") [ESym (b ".") (b "w/x")]].
+
+Lemma refuted_replace_wd :
+  lookup (st_fs (fst (pushes (mkCfg true true true true true false) wd0 cwd0 (mkStore fs1 []) os_replace_wd))) wd0
+  <> Some NDir.
+Proof. vm_compute. discriminate. Qed.
+
+Lemma replace_wd_fixed :
+  pushes cfg_fixed wd0 cwd0 (mkStore fs1 []) os_replace_wd = (mkStore fs1 [], [false]).
+Proof. vm_compute. reflexivity. Qed.
